@@ -129,13 +129,23 @@ def make_alphabet(stms, max_len, pool, load_routes=True):
         code = "\n".join(stms[i] for i in idx) + "\n"
         pat = PATS[ctx.choose(len(PATS), 'pattern')]
         # how the submission reached the report: CAIT parses it itself, or takes over the Source tool's parse
-        loaded = ('contextualize_report', 'set_source')[ctx.choose(2, 'loaded')] if load_routes else 'contextualize_report'
+        loaded = ('contextualize_report', 'set_source', 'environment given files and the current main code')[
+            ctx.choose(3, 'loaded')] if load_routes else 'contextualize_report'
+        if loaded.startswith('environment') and n > 1:
+            return
         ctx.observe(code + '|' + pat + '|' + loaded)
         ctx.set_sample({'program': code, 'pattern': pat, 'loaded': loaded})
         cmds.clear_report()
         if loaded == 'set_source':
             from pedal.source import set_source
             set_source(code)
+        elif loaded.startswith('environment'):
+            # the saved files of the assignment (an older text of the main file among them) plus what is in the editor now
+            import io, contextlib
+            from pedal.environments.vpl import VPLEnvironment
+            with contextlib.redirect_stdout(io.StringIO()):
+                VPLEnvironment(files={'answer.py': "import random\nsaved = 0\nprint(saved)\n", 'notes.txt': 'n'},
+                               main_file='answer.py', main_code=code, skip_tifa=True, skip_run=True)
         else:
             cmds.contextualize_report(code)
         ctx.step('find_matches')
@@ -286,6 +296,53 @@ SUB_INNER = ["_l_[__e__]", "__e__ + 1", "_v_ + ___", "___[___]", "_f_(__e__)", "
              "_g_(___)", "__k__ + __e__", "_w_", "_w_ + ___"]
 
 
+TWO_PROG = ["total = 0\nfor item in basket:\n    total = total + item\nprint(total)", "y = x + 2\nz = y + x",
+            "w = items[0]\nv = items[w]", "t = (a + 1) + b"]
+TWO_OUTER = ["for ___ in _v_:\n    __e__", "for _v_ in ___:\n    __e__", "_v_ = __e__", "___ = __e__ + _v_", "_t_ = __e__\n_v_ = ___",
+             "_v_ = ___[__e__]", "_t_ = _v_[__e__]"]
+TWO_INNER = ["_t_ = _t_ + _v_", "___ = ___ + _v_", "_v_ + ___", "_v_", "___ + _t_", "_t_[___]"]
+
+
+def _sub_signature(m, inner):
+    node = m['__e__'] if '__e__' in m.exp_table else None
+    if node is None:
+        return None
+    return sorted(repr(sorted((k, v.id) for k, v in s2.symbol_table.items())) for s2 in node.find_matches(inner))
+
+
+def body_two_questions(ctx):
+    """Two questions about the same piece of the program: match, look inside the bound node, match again with the
+    placeholder names used differently, look inside again.  The second answer is what it is when asked alone."""
+    code = TWO_PROG[ctx.choose(len(TWO_PROG), 'program')] + "\n"
+    o1 = TWO_OUTER[ctx.choose(len(TWO_OUTER), 'first-outer')]
+    o2 = TWO_OUTER[ctx.choose(len(TWO_OUTER), 'second-outer')]
+    i1 = TWO_INNER[ctx.choose(len(TWO_INNER), 'first-inner')]
+    i2 = TWO_INNER[ctx.choose(len(TWO_INNER), 'second-inner')]
+    ctx.observe('|'.join((code, o1, i1, o2, i2)))
+    ctx.set_sample({'program': code, 'first': [o1, i1], 'second': [o2, i2]})
+    try:
+        cmds.clear_report()
+        cmds.contextualize_report(code)
+        alone = [_sub_signature(m, i2) for m in find_matches(o2)]
+        cmds.clear_report()
+        cmds.contextualize_report(code)
+        ctx.step(('first question', o1, i1))
+        for m in find_matches(o1):
+            _sub_signature(m, i1)
+        ctx.step(('second question', o2, i2))
+        after = [_sub_signature(m, i2) for m in find_matches(o2)]
+    except Exception as e:
+        ctx.fail({'symptom': 'sub-match raised', 'exception': type(e).__name__, 'route': 'two questions'}, program=code,
+                 outer=o2, inner=i2, message=str(e)[:200])
+        return
+    if any(a for a in alone if a):
+        ctx.mark_nontrivial('|'.join((code, o1, i1, o2, i2)))
+    ctx.outcome('same' if alone == after else 'differs')
+    if alone != after:
+        ctx.fail({'symptom': 'a sub-match depends on what was asked about the same node before'}, program=code,
+                 first_question=[o1, i1], second_question=[o2, i2], asked_alone=alone, asked_second=after)
+
+
 def make_submatch():
     """The secondary entry points: a pattern matched *below a node bound by an earlier match* (CaitNode.find_matches,
     which continues from that match by default) and find_matches(..., use_previous=match).  Every returned sub-match
@@ -385,6 +442,9 @@ def phases(tier):
                 describe='3-statement patterns with shared placeholders x programs of <=4/5 similar statements')]
     ph.append(Phase('after-another-pattern', body_after_pattern, setup=_setup, chunk=50,
                     describe='a search made after a search with a definition / class / import pattern on another submission'))
+    ph.append(Phase('two-questions', body_two_questions, setup=_setup, chunk=100,
+                    describe='match + look inside the bound node, twice, with the placeholder names used differently: the '
+                             'second answer equals the answer when asked alone'))
     ph.append(Phase('sub-matches', make_submatch(), setup=_setup, chunk=400,
                     describe='pattern matched below a node bound by an earlier match / continued with use_previous'))
     if tier == 'thorough':
